@@ -118,6 +118,7 @@ type GenOpts struct {
 	Retries    bool // generate retry policies
 	Preconds   bool
 	SetupFails bool
+	Redirects  bool // stdout:/stderr: files (paths inside the run's scratch directory: not for cases whose steps are re-used by a later run)
 	Handlers   bool
 	Stop       bool // maybe inject a stop
 	Repeat     bool // maybe generate repeating steps (only with Stop)
@@ -222,7 +223,7 @@ func Gen(t *rapid.T, o GenOpts) Case {
 		}
 		s.OutLen = rapid.SampledFrom([]int{0, 0, 0, 7, 60, 4095, 4096, 4097, 6000}).Draw(t, "outLen")
 		s.Output = rapid.IntRange(0, 3).Draw(t, "output") == 0
-		if !s.SetupFail {
+		if o.Redirects && !s.SetupFail {
 			s.Redirect = rapid.SampledFrom([]int{0, 0, 0, 0, 1, 2, 3, 4}).Draw(t, "redirect")
 		}
 		if s.OutLen > 0 && rapid.Bool().Draw(t, "hasErr") {
